@@ -88,6 +88,12 @@ func (r *Response) FetchPayload(maxPayloadSize int64) error {
 
 	stdr := r.Response
 
+	// the response to a HEAD request declares a length but never has a body
+	if stdr.Request != nil && stdr.Request.Method == http.MethodHead {
+		r.SetPayload(nil)
+		return nil
+	}
+
 	if stdr.ContentLength > maxPayloadSize {
 		return ErrResponseEntityTooLarge
 	}
